@@ -223,7 +223,7 @@ func runValue(c *core.Case, e *entry, g *gen) {
 		return
 	}
 	smp.Encodings["other value (decoded first into the reused target)"] = qb(other)
-	reuseCheck(c, e, "UnmarshalXML(encoding)", other, enc)
+	reuseCheck(c, e, "UnmarshalXML(encoding)", true, other, enc)
 }
 
 // checkValue returns the first well-formed encoding and whether the value
